@@ -153,6 +153,15 @@ pub fn parse_x224_cr(p: &[u8]) -> PResult<NegReq> {
         if l != 8 {
             return Err(format!("RDP_NEG_REQ length {}", l));
         }
+        // flags: RESTRICTED_ADMIN_MODE_REQUIRED 0x01, REDIRECTED_AUTHENTICATION_MODE_REQUIRED 0x02,
+        // CORRELATION_INFO_PRESENT 0x08 (a 36-byte RDP_NEG_CORRELATION_INFO must then follow, which this parse - the
+        // request being the last 8 bytes of the TPDU - never sees); anything else is undefined
+        if f & !0x0B != 0 {
+            return Err(format!("RDP_NEG_REQ flags {:#04x}: undefined bits", f));
+        }
+        if f & 0x08 != 0 {
+            return Err(format!("RDP_NEG_REQ flags {:#04x}: CORRELATION_INFO_PRESENT is set but no RDP_NEG_CORRELATION_INFO follows the request", f));
+        }
         Some((t, f, proto))
     };
     Ok(NegReq { cookie, neg })
